@@ -236,7 +236,7 @@ impl<'a> Exec<'a> {
         let first: Option<(u8, f64, f64)> = if a.n_ins == 0 {
             None
         } else {
-            let mid = a.min + (a.max - a.min) * 0.37;
+            let mid = lerp(a.min, a.max, 0.37);
             Some(match self.step % 4 {
                 0 => (0, 1.0, d.quantile(1.0)),
                 1 => (1, a.max + (a.max.abs() + 1.0), d.cdf(a.max + (a.max.abs() + 1.0))),
@@ -319,7 +319,7 @@ impl<'a> Exec<'a> {
                     worst_rank = worst_rank.max(dist / allowed);
                     if dist > allowed {
                         self.viol.push(v("C04", format!("tdigest/{}/quantile-rank-error", s), self.step,
-                            format!("n = {}, delta = {}, backlog = {}, pattern {}: quantile({}) = {} has empirical rank in [{:.6}, {:.6}], off by {:.6} > {} W + 2/n = {:.6}",
+                            format!("n = {}, delta = {}, backlog = {}, pattern {}: quantile({}) = {:e} has empirical rank in [{:.6}, {:.6}], off by {:.6} > {} W + 2/n = {:.6}",
                                 n, case.delta, case.backlog, case.pattern, q, val, lo, hi, dist, c, allowed)));
                         return;
                     }
@@ -346,7 +346,7 @@ impl<'a> Exec<'a> {
         let margin = (2.0 * eps).max(f64::MIN_POSITIVE);
         let mut xs: Vec<f64> = vec![a.min - range.max(1.0) - margin, a.min - 2.0 * margin, a.min, a.max, a.max + 2.0 * margin, a.max + range.max(1.0) + margin];
         for i in 1..200 {
-            xs.push(a.min + range * (i as f64 / 200.0));
+            xs.push(lerp(a.min, a.max, i as f64 / 200.0));
         }
         for &val in qs.iter().step_by(8) {
             xs.push(val);
@@ -379,7 +379,7 @@ impl<'a> Exec<'a> {
                     let allowed = c * w + 2.0 / nf;
                     if dist > allowed {
                         self.viol.push(v("C04", format!("tdigest/{}/cdf-rank-error", s), self.step,
-                            format!("n = {}, delta = {}, backlog = {}, pattern {}: cdf({}) = {:.6}, empirical CDF there is [{:.6}, {:.6}], off by {:.6} > {} W + 2/n = {:.6}",
+                            format!("n = {}, delta = {}, backlog = {}, pattern {}: cdf({:e}) = {:.6}, empirical CDF there is [{:.6}, {:.6}], off by {:.6} > {} W + 2/n = {:.6}",
                                 n, case.delta, case.backlog, case.pattern, x, cv, lo, hi, dist, c, allowed)));
                         return;
                     }
@@ -392,7 +392,7 @@ impl<'a> Exec<'a> {
         // ---- repeated reads
         for &q in &[0.0, 0.3, 0.77, 1.0] {
             let (r1, r2) = (d.quantile(q), d.quantile(q));
-            let x = a.min + range * q;
+            let x = lerp(a.min, a.max, q);
             let (c1, c2) = (d.cdf(x), d.cdf(x));
             if r1.to_bits() != r2.to_bits() || c1.to_bits() != c2.to_bits() {
                 self.viol.push(v("C15", format!("tdigest/{}/read-not-repeatable", s), self.step, format!("two consecutive reads at {} returned {} / {} and {} / {}", q, r1, r2, c1, c2)));
@@ -450,6 +450,9 @@ impl<'a> Exec<'a> {
         self.stats.sig(case.scale as u64);
         self.stats.sig((case.delta * 10.0) as u64);
         self.stats.sig(case.backlog as u64);
+        if case.pattern == "huge-symmetric-singletons" || case.pattern == "distinct-subnormals" {
+            self.stats.probe("numeric_extreme_pattern");
+        }
         self.check_empty(d.as_ref(), "C15", "fresh digest");
         let mut forks: Vec<(Box<dyn DigDyn>, [u64; 6], usize)> = vec![];
         let mut since_compact = 0usize;
@@ -509,7 +512,7 @@ impl<'a> Exec<'a> {
                             first = Some((0, q, d.quantile(q)));
                         }
                         1 => {
-                            let x = if a.n_ins == 0 { pos } else { a.min + (a.max - a.min) * (pos * 1.2 - 0.1) };
+                            let x = if a.n_ins == 0 { pos } else { lerp(a.min, a.max, pos * 1.2 - 0.1) };
                             first = Some((1, x, d.cdf(x)));
                         }
                         2 => {
@@ -580,6 +583,16 @@ impl<'a> Exec<'a> {
                 self.viol.push(v("C19", format!("tdigest/{}/clone/not-independent", self.sname), self.step, format!("clone taken at step {} changed after the original was mutated", at)));
             }
         }
+    }
+}
+
+/// overflow-free interpolation between two finite values (never NaN)
+fn lerp(a: f64, b: f64, t: f64) -> f64 {
+    let x = a * (1.0 - t) + b * t;
+    if x.is_nan() {
+        a
+    } else {
+        x
     }
 }
 
@@ -722,9 +735,40 @@ impl Scenario for S4 {
             n = (budget / per_insert) as usize;
         }
         let n = n.max(1);
-        let (vals, pattern, smooth, generic) = gen_values(&mut g, n);
+        let (mut vals, mut pattern, mut smooth, mut generic) = gen_values(&mut g, n);
+        let (mut scale, mut delta, mut n) = (scale, delta, n);
+        if prop == "C04" && g.chance(1, 25) {
+            // numeric extremes; only C04's rank-space oracle is meaningful for them (value-space
+            // tolerances overflow / underflow), so the other digest checks do not get these
+            if g.chance(1, 2) {
+                // distinct values within 2 % of +-f64::MAX/1.8: neighbours are more than f64::MAX apart.
+                // Fused sums would overflow on any implementation, so the digest is kept in the regime
+                // where every centroid is a singleton (K0 / K1, delta 1000, n <= 240).
+                scale = g.below(2) as u8;
+                delta = 1000.0;
+                n = g.range(20, 240) as usize;
+                vals = (0..n).map(|i| (1e308 + (i / 2) as f64 * 5e305) * if i % 2 == 0 { 1.0 } else { -1.0 }).collect();
+                g.shuffle(&mut vals);
+                pattern = "huge-symmetric-singletons".into();
+            } else {
+                // distinct subnormal values: differences below f64::MIN_POSITIVE, sums exact
+                n = n.min(5000).max(50);
+                let mut ks: Vec<u64> = (0..n).map(|_| 1 + g.below(1_000_000_000_000)).collect();
+                ks.sort();
+                ks.dedup();
+                g.shuffle(&mut ks);
+                vals = ks.iter().map(|k| f64::from_bits(*k)).collect();
+                n = vals.len();
+                pattern = "distinct-subnormals".into();
+            }
+            smooth = false;
+            generic = true;
+        }
         let weighted = prop != "C04" && g.chance(1, 2);
         let wspan = if prop == "C16" { 6.0 } else { 1.5 };
+        // C16 only (aggregates are stated for every positive weight); every run of such a digest is
+        // ill-conditioned for the rank checks, which C15 / C04 therefore do not get
+        let tiny_weights = prop == "C16" && g.chance(1, 6);
         let read_rate = *g.pick(&[0u64, 0, 1, 5, 20, 100, 500, 1000]); // per mille, per insert
         let n_checks = g.range(0, 3);
         let mut check_at: Vec<usize> = (0..n_checks).map(|_| g.usize(n)).collect();
@@ -734,8 +778,15 @@ impl Scenario for S4 {
         let mut ops = Vec::with_capacity(n + n / 4 + 8);
         for (i, &x) in vals.iter().enumerate() {
             if weighted {
-                let w = if g.chance(1, 4) { 1.0 } else { 10f64.powf((g.f64() * 2.0 - 1.0) * wspan) };
-                ops.push(DOp::InsW(x, w));
+                let w = if g.chance(1, 4) {
+                    1.0
+                } else if tiny_weights && g.chance(1, 10) {
+                    // far below f64::EPSILON, down to subnormal: still a positive weight
+                    *g.pick(&[1e-17, 3e-20, 1e-100, 1e-300, 5e-324, 2.2e-16])
+                } else {
+                    10f64.powf((g.f64() * 2.0 - 1.0) * wspan)
+                };
+                ops.push(DOp::InsW(if tiny_weights && g.chance(1, 50) { -0.0 } else { x }, w));
             } else {
                 ops.push(DOp::Ins(x));
             }
